@@ -64,7 +64,9 @@ def gen_source(rng, idx):
     if shadow == "local":
         body.append("def other():\n    from shapes import Square as Point\n    return Point\n\n")
     body.append("def config(opts):\n%s    return sorted(opts)\n\n" % ("    from typing import Deque  # unused, local\n" if rng.random() < 0.3 else ""))
-    body.append("class Shop:\n    rate = 2\n\n    def price(self, item, qty: int = 1):\n        \"\"\"Doc.\"\"\"\n        return self.rate * qty\n\n"
+    # an existing annotation that MonkeyType renders differently in a replicating stub (Optional[...] for a None default)
+    qty = rng.choice(["qty: int = 1", "qty: int = None", "qty: 'int' = 1"])
+    body.append("class Shop:\n    rate = 2\n\n    def price(self, item, %s):\n        \"\"\"Doc.\"\"\"\n        return self.rate * qty\n\n" % qty +
                 "    @staticmethod\n    def util(x):\n        return [x]\n\n")
     body.append("def run():\n    out = [area(make(1)[0]), config({'b': 1, 'a': 2}), Shop().price('x', 2), Shop.util(1)]\n"
                 + "".join("    out.append(repr(%s))\n" % u for u in uses) + "    return repr(out)\n")
